@@ -26,6 +26,7 @@ const (
 	KNonNil
 	KSym // a symbolic, non-nil identity (e.g. "the user layer value")
 	KPtr // pointer to a tracked local allocation
+	KTuple
 )
 
 type AV struct {
@@ -33,10 +34,17 @@ type AV struct {
 	C constant.Value
 	S string
 	P ssa.Value
+	T []AV // KTuple: the results of an inlined multi-value call
 }
 
 func (a AV) String() string {
 	switch a.K {
+	case KTuple:
+		var ps []string
+		for _, e := range a.T {
+			ps = append(ps, e.String())
+		}
+		return "(" + strings.Join(ps, ",") + ")"
 	case KConst:
 		return a.C.ExactString()
 	case KNil:
@@ -69,16 +77,17 @@ type cellKey struct {
 }
 
 type Interp struct {
-	Fn      *ssa.Function
-	Input   func(v ssa.Value) (AV, bool)                              // declared inputs for this valuation
-	Mark    func(in ssa.Instruction) int                              // bit index of a pass-through mark, or -1
-	Outcome func(in ssa.Instruction, ev func(ssa.Value) AV) string    // "" = not an outcome
-	Inline  func(callee *ssa.Function) bool                           // evaluate these callees recursively
-	Start   ssa.Instruction                                           // nil = function entry
+	Fn       *ssa.Function
+	Input    func(v ssa.Value) (AV, bool)                           // declared inputs for this valuation
+	Mark     func(in ssa.Instruction) int                           // bit index of a pass-through mark, or -1
+	Outcome  func(in ssa.Instruction, ev func(ssa.Value) AV) string // "" = not an outcome
+	Inline   func(callee *ssa.Function) bool                        // evaluate these callees recursively (nil: same-package callees)
+	NoInline bool                                                   // never inline
+	Start    ssa.Instruction                                        // nil = function entry
 	// LoadField supplies the value of a field loaded through a symbolic base
 	LoadField func(base AV, owner, field string) (AV, bool)
 	MaxStates int
-	depth   int
+	depth     int
 	// results
 	Outcomes map[string]map[uint32]bool // label -> set of mark bitsets
 	States   int
@@ -383,14 +392,32 @@ func (it *Interp) execBlock(s *istate) []*istate {
 		case *ssa.Call:
 			if ia, ok := it.inputOf(x); ok {
 				s.env[x] = ia
-			} else if callee := staticCallee(&x.Call); callee != nil && it.Inline != nil && it.depth < 3 && callee.Blocks != nil && it.Inline(callee) {
-				s.env[x] = it.evalCall(s, callee, x)
+			} else if callee := staticCallee(&x.Call); callee != nil && it.depth < 3 && callee.Blocks != nil && it.wantInline(callee) {
+				tuples := it.evalCallAll(s, callee, x)
+				switch len(tuples) {
+				case 0:
+					s.env[x] = AV{}
+				case 1:
+					s.env[x] = tuples[0]
+				default:
+					// the callee can return different results for these arguments: continue once per result
+					var out []*istate
+					for _, t := range tuples {
+						s2 := s.clone()
+						s2.env[x] = t
+						s2.idx = i + 1
+						out = append(out, s2)
+					}
+					return out
+				}
 			} else {
 				s.env[x] = AV{}
 			}
 		case *ssa.Extract:
 			if ia, ok := it.inputOf(x); ok {
 				s.env[x] = ia
+			} else if t := ev(x.Tuple); t.K == KTuple && x.Index < len(t.T) {
+				s.env[x] = t.T[x.Index]
 			}
 		case *ssa.TypeAssert, *ssa.Lookup, *ssa.Index, *ssa.Field, *ssa.Next, *ssa.Range, *ssa.Slice, *ssa.MakeInterface:
 			if v, ok := in.(ssa.Value); ok {
@@ -452,9 +479,22 @@ func (it *Interp) enter(s *istate, from, to *ssa.BasicBlock) *istate {
 	return s
 }
 
-// evalCall evaluates a callee with the caller's abstract arguments and returns
-// the join of its first result over all reachable returns.
-func (it *Interp) evalCall(s *istate, callee *ssa.Function, call *ssa.Call) AV {
+// wantInline: explicit Inline predicate, or by default every other function of
+// the same package (helpers extracted from the analysed function stay transparent).
+func (it *Interp) wantInline(callee *ssa.Function) bool {
+	if it.Inline != nil {
+		return it.Inline(callee)
+	}
+	if it.NoInline {
+		return false
+	}
+	return callee != it.Fn && callee.Pkg != nil && it.Fn.Pkg != nil && callee.Pkg == it.Fn.Pkg
+}
+
+// evalCallAll evaluates a callee with the caller's abstract arguments and
+// returns the distinct result tuples over all reachable returns (nil if the
+// callee could not be explored). A single-result callee yields plain values.
+func (it *Interp) evalCallAll(s *istate, callee *ssa.Function, call *ssa.Call) []AV {
 	args := map[ssa.Value]AV{}
 	for i, p := range callee.Params {
 		if i < len(call.Call.Args) {
@@ -462,6 +502,7 @@ func (it *Interp) evalCall(s *istate, callee *ssa.Function, call *ssa.Call) AV {
 		}
 	}
 	var results []AV
+	seen := map[string]bool{}
 	sub := &Interp{
 		Fn: callee,
 		Input: func(v ssa.Value) (AV, bool) {
@@ -471,31 +512,51 @@ func (it *Interp) evalCall(s *istate, callee *ssa.Function, call *ssa.Call) AV {
 				}
 				return AV{}, false
 			}
+			if _, isParam := v.(*ssa.Parameter); isParam {
+				return AV{}, false
+			}
 			if it.Input != nil {
 				return it.Input(v)
 			}
 			return AV{}, false
 		},
-		Inline: it.Inline,
-		depth:  it.depth + 1,
+		Inline:    it.Inline,
+		NoInline:  it.NoInline,
+		LoadField: it.LoadField,
+		depth:     it.depth + 1,
 		Outcome: func(in ssa.Instruction, ev func(ssa.Value) AV) string {
 			if r, ok := in.(*ssa.Return); ok && len(r.Results) > 0 {
-				results = append(results, ev(r.Results[0]))
+				var res AV
+				if len(r.Results) == 1 {
+					res = ev(r.Results[0])
+				} else {
+					res = AV{K: KTuple}
+					for _, x := range r.Results {
+						res.T = append(res.T, ev(x))
+					}
+				}
+				if k := res.String(); !seen[k] {
+					seen[k] = true
+					results = append(results, res)
+				}
 			}
 			return ""
 		},
 		MaxStates: 20000,
 	}
-	if !sub.Run() || len(results) == 0 {
-		return AV{}
+	if !sub.Run() || len(results) == 0 || len(results) > 8 {
+		return nil
 	}
-	r := results[0]
-	for _, x := range results[1:] {
-		if x.K != r.K || (x.K == KConst && constant.Compare(x.C, token.NEQ, r.C)) || (x.K == KSym && x.S != r.S) {
-			return AV{}
-		}
+	return results
+}
+
+// evalCall is evalCallAll joined to one value (Top unless all returns agree).
+func (it *Interp) evalCall(s *istate, callee *ssa.Function, call *ssa.Call) AV {
+	rs := it.evalCallAll(s, callee, call)
+	if len(rs) == 1 {
+		return rs[0]
 	}
-	return r
+	return AV{}
 }
 
 // retOutcome is the standard outcome function: labels "ret(<v1>,<v2>..)".
